@@ -743,6 +743,9 @@ func (o c13Obs) failure(kind string) (fk, site string) {
 	recvSiteOf := recvSite(kind)
 	switch {
 	case o.Died != "":
+		if strings.Contains(o.Died, "out of memory") {
+			return "process-died[" + o.Died + "]", "?" // the allocation that happened to fail says nothing about the cause
+		}
 		return "process-died[" + o.Died + "]", o.DiedTop
 	case o.Panic != "":
 		return "panic[" + panicClass(o.Panic) + "]", o.PanicTop
